@@ -339,7 +339,24 @@ def oracle(case, r):
                     path, "gone" if sub_new is None else "changed")))
                 break
         elif cd and sub_new is None and not same_slot_present(after, path, rules):
-            out.append(dict(sig="cant-delete-row-removed", what="cant_delete row %r is gone after the patch" % (path,)))
+            sig = "cant-delete-row-removed"
+            # the row belongs to a %rewrite group of its block and the patch re-sends that group (a command for another
+            # %rewrite row of the same block): the device replaces the group's content, the protected row is not re-sent
+            from annet.annlib import patching as _p
+            _rules, _ok = rules, True
+            for k in path[:-1]:
+                _m, _rules = _p._match_row_to_rules(k, _rules)
+                if not _m:
+                    _ok = False
+                    break
+            if _ok:
+                _m, _ = _p._match_row_to_rules(path[-1], _rules)
+                if _m and _m["attrs"]["logic"].__name__ == "rewrite" and any(
+                        len(pp) == len(path) and list(pp[:-1]) == list(path[:-1]) and pp[-1] != path[-1] and
+                        (lambda mm: mm and mm["attrs"]["logic"].__name__ == "rewrite")(_p._match_row_to_rules(pp[-1], _rules)[0])
+                        for pp in r["paths"]):
+                    sig = "cant-delete-row-of-rewrite-group-dropped-when-group-resent"
+            out.append(dict(sig=sig, what="cant_delete row %r is gone after the patch" % (path,)))
             break
     return out
 
